@@ -100,6 +100,10 @@ EMBED = {
     "agg": lambda iv: FN.Max(Field("d") + iv),
     "not": lambda iv: (Field("d") > (Field("e") - iv)).negate(),
 }
+def _other(Q):
+    return fp.QCLS["generic"] if Q is fp.QCLS["mysql"] else fp.QCLS["mysql"]
+
+
 STMT_EMBED = {
     "select": lambda Q, iv: Q.from_(Table("t")).select(Table("t").d + iv),
     "select_fn": lambda Q, iv: Q.from_(Table("t")).select(Function("DATE_ADD", Table("t").d, iv)),
@@ -127,6 +131,14 @@ STMT_EMBED = {
     "case_in_set": lambda Q, iv: Q.update(Table("t")).set("d", Case().when(Table("t").a == 1, Table("t").d + iv).else_(Table("t").d)),
     "window_order": lambda Q, iv: Q.from_(Table("t")).select(AN.Rank().over(Table("t").a).orderby(Table("t").d + iv)),
     "agg_filter": lambda Q, iv: Q.from_(Table("t")).select(FN.Count("*").filter(Table("t").d > Function("NOW") - iv)),
+    # row sources / operands built through another dialect's class than the statement that embeds them
+    "sub_other_cls_in_from": lambda Q, iv: (lambda sq: Q.from_(sq).select(sq.x))(_other(Q).from_(Table("u")).select((Table("u").d + iv).as_("x")).as_("sq")),
+    "setop_other_cls_in_from": lambda Q, iv: (lambda so: Q.from_(so).select(so.x))(
+        _other(Q).from_(Table("u")).select((Table("u").d + iv).as_("x")).union(_other(Q).from_(Table("v")).select(Table("v").d)).as_("so")),
+    "setop_other_cls_in_where": lambda Q, iv: Q.from_(Table("t")).select("a").where(Table("t").d.isin(
+        _other(Q).from_(Table("u")).select(Table("u").d).intersect(_other(Q).from_(Table("v")).select(Table("v").d + iv)))),
+    "setop_other_cls_joined": lambda Q, iv: (lambda so: Q.from_(Table("t")).join(so).on(Table("t").d == so.x).select("a"))(
+        _other(Q).from_(Table("u")).select((Table("u").d + iv).as_("x")).union_all(_other(Q).from_(Table("v")).select(Table("v").d)).as_("so")),
     "create_as": lambda Q, iv: Q.create_table("n").as_select(Q.from_(Table("t")).select(Table("t").d + iv)),
 }
 EMBED_IVS = [dict(days=1, hours=2, dialect="MYSQL"), dict(hours=36, dialect="POSTGRESQL"), dict(days=3, dialect="ORACLE"), dict(days=1), dict(days=10, minutes=5), dict(hours=36), dict(years=1, months=2), dict(seconds=1, microseconds=5),
@@ -166,6 +178,7 @@ def chunks(tier, seed):
     dom = DOM[tier]
     out = [{"kind": "ymd", "y": y, "m": m, "tier": tier} for y in dom for m in dom]
     out.append({"kind": "qw", "tier": tier})
+    out.append({"kind": "big", "tier": tier})
     out.append({"kind": "embed", "tier": tier})
     return out
 
@@ -177,6 +190,20 @@ def expand(chunk):
                 if pos.startswith("zoo:") and i > 3 and chunk["tier"] == "quick":
                     continue
                 yield {"k": "embed", "iv": i, "pos": pos}
+        return
+    if chunk["kind"] == "big":
+        # components beyond the range a double represents exactly (2**53 + 1, 17 digits) and other many-digit values
+        for v in (9007199254740993, 12345678901234567, 10 ** 18, 4294967297):
+            for i in range(7):
+                comp = [0] * 7
+                comp[i] = v
+                yield {"k": "ymd", "c": comp, "neg": False}
+                yield {"k": "ymd", "c": comp, "neg": True}
+                for j in range(7):
+                    if j != i:
+                        c2 = list(comp)
+                        c2[j] = 1
+                        yield {"k": "ymd", "c": c2, "neg": False}
         return
     if chunk["kind"] == "qw":
         for v in [1, 10, 100, 101, -3, -10, 7]:
